@@ -9,13 +9,15 @@ func init() {
 		ID: "C15",
 		Decides: "(R15.1) BatchWork drops no batch's error; ImportBlocks reports success only after BatchWork succeeded and the importers of the last batch were saved (no bypass around the final saveImporters) for the whole range to-from+1; " +
 			"(R15.2) a batch's importer list is replaced only after the previous batch's importers were saved; every imported block's importer is stored in the batch list, and only after importBlock succeeded for the map fetched for that height; " +
-			"(R15.3) saveImporters succeeds only after every importer's Save succeeded, every deferred merge function ran, and the database merge callback succeeded; (R15.4) an importer's Save succeeds only if isfinished answered true, and isfinished answers true only if every item of the block map is recorded finished.",
+			"(R15.3) saveImporters succeeds only after every importer's Save succeeded, every deferred merge function ran, and the database merge callback succeeded; (R15.4) an importer's Save succeeds only if isfinished answered true, and isfinished answers true only if every item of the block map is recorded finished.; (R15.j) jobs handed to a worker read only captured variables that the submitter does not assign again (no job works on a later batch/slot than the one it was created for)",
 		NotDecided: "that BatchWork visits every index exactly once (C33); slot arithmetic of the batch list over runtime heights; the rest of the importers' own Save (C16/C21).",
 		Run:        runC15,
 	})
 }
 
 func runC15(c *Ctx) {
+	c.Rule("R15.j", "AsyncCapture")
+	c.AsyncCaptures(c.Need("isaac/block.importBlock"), "*.NewJob", 1)
 	parent := c.Need("isaac/block.ImportBlocks")
 	if parent == nil {
 		return
